@@ -712,9 +712,10 @@ func RunC18(cfg Config) (*ShardResult, error) {
 		}
 		for _, reader := range corpus.ReaderConfigs(d.Format) {
 			for _, medium := range mediaFor(d.Format) {
-				// only documents that parse to >= 1 cue when delivered whole
+				// only documents that parse when delivered whole (also when that gives no cue at all: a reader that
+				// stops listening early - and so meets no fault behind that point - returns few or no cues fault-free too)
 				ref, _ := EvalRead(reader, d.Data, simio.ReadPlan{Medium: medium})
-				if ref.Class != "ok" || ref.Items < 1 {
+				if ref.Class != "ok" {
 					continue
 				}
 				for oi, ok := range offs {
